@@ -520,6 +520,15 @@ func c15E2ERun(r *vkit.Run, one func(fn func())) {
 			}
 		}
 	}
+	// one container printing the same line several times (equal lines are distinct entries), also next to another one
+	dupA := c15Stream{Container: "c0", Entries: []c15Entry{{TS: base, Msg: "same"}, {TS: base + 3, Msg: "same"}, {TS: base + 3, Msg: "same"}, {TS: base + 9, Msg: "other"}, {TS: base + 12, Msg: "same"}}}
+	dupB := c15Stream{Container: "c1", Entries: []c15Entry{{TS: base + 1, Msg: "same"}, {TS: base + 3, Msg: "same"}}}
+	for _, f := range forms {
+		for _, logs := range [][]c15Stream{{dupA}, {dupA, dupB}} {
+			in := c15E2EInput{Args: f.args, Timestamp: f.ts, Container: f.ct, Color: f.co, Logs: logs}
+			one(func() { c15E2ECheck(r, in) })
+		}
+	}
 	// results without entries: no container at all, no container matching, every line filtered out
 	one1 := []c15Stream{{Container: "c0", Entries: []c15Entry{{TS: base, Msg: "m"}, {TS: base + 5, Msg: "n"}}}}
 	for _, f := range forms {
